@@ -177,6 +177,10 @@ def step (s : Sess) (j : Json) : Sess × Json :=
   | some "read" => readOp s j
   | some "tamper" => tamperOp s j
   | some "check" => checkOp s j
+  -- `early`: the responder writes frames right after ITS half of the handshake, before the initiator has finished
+  -- reading the handshake message; the handshake is atomic in the model, so the run is monitored on the implementation
+  -- only (every byte must arrive) and the model just acknowledges the op
+  | some "early" => (⟨Dir.init, Dir.init⟩, Json.mkObj [("class", "early")])
   | _ => (s, badOp)
 
 end Driver.C13
